@@ -1200,6 +1200,10 @@ func (ev *Evaluator) call(c *grl.Call) (Val, error) {
 				}
 				return xs[i], nil
 			}
+		case "Sheavy":
+			if len(args) == 1 && args[0].K == VInt {
+				return FromReflect(reflect.ValueOf(&facts.Sub{V: facts.HeavyOf(args[0].I), S: "s"})), nil
+			}
 		case "GetSub":
 			if len(args) == 0 {
 				return FromReflect(reflect.ValueOf(f.P)), nil
